@@ -125,7 +125,7 @@ func genC11(rt *rapid.T) c11Req {
 				q.Ver = []string{how}
 			}
 		case "key":
-			how = rapid.SampledFrom([]string{"15bytes", "17bytes", "0bytes", "badchar", "urlsafe", "nopad", "<absent>", "twice", "empty", "noncanonical", "32bytes"}).Draw(rt, "keyBad")
+			how = rapid.SampledFrom([]string{"15bytes", "17bytes", "0bytes", "badchar", "urlsafe", "nopad", "<absent>", "twice", "empty", "noncanonical", "32bytes", "blank-then-valid", "valid-then-blank", "17bytes-24chars", "18bytes-24chars"}).Draw(rt, "keyBad")
 			switch how {
 			case "15bytes":
 				q.Key = []string{genKey(rt, 15)}
@@ -147,6 +147,14 @@ func genC11(rt *rapid.T) c11Req {
 				q.Key = nil
 			case "twice":
 				q.Key = []string{genKey(rt, 16), genKey(rt, 16)}
+			case "blank-then-valid":
+				q.Key = []string{"", genKey(rt, 16)}
+			case "valid-then-blank":
+				q.Key = []string{genKey(rt, 16), " "}
+			case "17bytes-24chars":
+				q.Key = []string{genKey(rt, 17)} // 24 characters ending in a single "="
+			case "18bytes-24chars":
+				q.Key = []string{genKey(rt, 18)} // 24 characters, no padding
 			case "noncanonical":
 				k := []byte(genKey(rt, 16))
 				k[21] = 'B' // non-zero trailing bits
